@@ -485,6 +485,7 @@ class ThreadedSession:
         th = threading.Thread(target=run, daemon=True, name="pv-sftp-op")
         th.start()
         t_end = time.time() + limit
+        last_ep = -1
         stable_epoch, stable_n = None, 0
         while True:
             with self.world.cv:
@@ -504,13 +505,15 @@ class ThreadedSession:
                 else:
                     stable_epoch, stable_n = None, 0
                 self.world.cv.wait(0.05 if q else 0.25)
+            if ep != last_ep:
+                last_ep, t_end = ep, time.time() + limit  # bytes are moving: slow, not stuck
             if time.time() > t_end:
                 if box:
                     return box[0]
-                raise InfraError("sftp client call neither finished nor quiesced within %.0f s" % limit)
+                raise InfraError("sftp client call neither finished nor quiesced, and nothing moved for %.0f s" % limit)
 
     # ---- raw requests (C30): write a packet, wait until the server is idle again, collect what it sent
-    def raw_exchange(self, packets, limit=60.0):
+    def raw_exchange(self, packets, limit=600.0):
         """Send raw request packets (bytes: type byte + payload each); returns the list of (type, payload) the
         server answered with once it waits for the next request with nothing left to read."""
         import struct
